@@ -17,7 +17,13 @@ func catalogue(tier string) []cfg {
 		}
 		return k
 	}
-	ld := func(k cfg, n, b int) cfg { k.n, k.mode, k.bound = n, mp.LeftDeep, b; return k }
+	ld := func(k cfg, n, b int) cfg { // the cap of the left-deep orders: b departures from index order, at most 2 from 7 parties on
+		if n >= 7 && b > 2 {
+			b = 2
+		}
+		k.n, k.mode, k.bound = n, mp.LeftDeep, b
+		return k
+	}
 
 	// --- RLWE level: KeySwitch to a shared key / to the zero key, PublicKeySwitch -------------------------
 	for _, proto := range []string{"ks-shared", "ks-decrypt", "pcks"} {
@@ -45,7 +51,7 @@ func catalogue(tier string) []cfg {
 		// 5..8 parties: left-deep orders within 2 (quick) / 3 (thorough) departures from index order
 		b := 2
 		if th {
-			b = 4
+			b = 3
 		}
 		for _, n := range []int{5, 6, 7, 8} {
 			if !th && (n == 6 || n == 7) {
